@@ -24,12 +24,19 @@ BOUNDS = [0, 1, 2, 3, 7, 8, 15, 16, 127, 128, 255, 256, 257, 32767, 32768, 65535
           2 ** 64 - 1, 2 ** 64]
 
 
+BIG_SIZE_SHAPES = [(0, 127), (0, 128), (0, 255), (0, 256), (1, 256), (0, 257), (0, 65535), (0, 65536),
+                   (1, 65536), (0, 70000), (128, 128), (127, 129), (255, 257), (256, 256), (200, 300)]
+HUGE_SIZE_SHAPES = [(65535, 65535), (65536, 65536), (65535, 65537), (16384, 16384), (16383, 16385)]
+
+
 class Profile(object):
     """What the generator may produce.  Each check narrows this to the domain
     its property quantifies over."""
 
     def __init__(self, **kw):
-        self.kinds = list(asn.PRIMS)
+        # the 11 string and 5 time kinds would otherwise be two thirds of all primitive nodes
+        self.kinds = list(asn.PRIMS) + ['BOOLEAN', 'INTEGER', 'INTEGER', 'ENUMERATED', 'ENUMERATED', 'NULL',
+                                        'BIT STRING', 'OCTET STRING', 'REAL']
         self.constructed = list(asn.CONSTRUCTED)
         self.tagdefaults = ['', 'EXPLICIT', 'IMPLICIT', 'AUTOMATIC']
         self.max_modules = 2
@@ -53,6 +60,7 @@ class Profile(object):
         self.semi_constraints = True    # lo..MAX / MIN..hi
         self.alpha = True
         self.size_with_alpha = True
+        self.alpha_ext = True       # extensible permitted alphabet, written (FROM(...), ...)
         self.valuerefs = True
         self.named = True           # named numbers / named bits
         self.ext_implied = True
@@ -77,6 +85,11 @@ class Profile(object):
         self.real_wc_always = False
         self.real_wc_near = False           # WITH COMPONENTS ranges next to the binary32/binary64 shapes
         self.default_kinds = None       # restrict DEFAULT to these base kinds
+        # SIZE bounds on both sides of the one/two-octet length forms and of the 64K limit of PER constrained
+        # lengths, beyond max_size_bound (values stay short unless the lower bound forces a length)
+        self.components_of_rate = 0     # percent of specs that get a 'CO ::= SEQUENCE { COMPONENTS OF X, ... }'
+        self.big_size_rate = 8
+        self.big_size_shapes = BIG_SIZE_SHAPES
         for k, v in kw.items():
             if not hasattr(self, k):
                 raise AttributeError(k)
@@ -162,9 +175,15 @@ class _G(object):
         return n
 
     def size_range(self, mod, maxb=None):
+        small = maxb is not None
         maxb = self.p.max_size_bound if maxb is None else maxb
         kind = self.d(st.integers(0, 99))
-        if kind < 30:
+        if self.p.big_size_rate and self.p.big_size_shapes and self.chance(self.p.big_size_rate):
+            lo, hi = self.pick(self.p.big_size_shapes)
+            if small and lo > 64:
+                lo = 0      # lists: long only by choice of the value generator
+            r = Rng(lo, hi)
+        elif kind < 30:
             n = self.d(st.integers(0, maxb))
             r = Rng(n, n)
         elif kind < 40 and not self.p.require_bounded and self.p.semi_constraints:
@@ -258,6 +277,8 @@ class _G(object):
                     and k in ('NumericString', 'PrintableString', 'VisibleString', 'IA5String')
                     and (P.size_with_alpha or t.size is None)):
                 t.alpha = self.alphabet(k)
+                if P.ext_constraints and P.alpha_ext and t.size is None and self.chance(20):
+                    t.alpha.ext = True      # (FROM(...), ...)
         elif k == 'REAL':
             if P.real_wc and (P.real_wc_always or self.chance(50)):
                 t.wc = self.pick([(-16777215, 16777215, 2, -149, 104),
@@ -286,9 +307,12 @@ class _G(object):
                 root.append((nm, i, False))
                 used.add(i)
         elif style == 1:    # all explicit, possibly negative / large / unordered
-            vals = self.d(st.lists(st.sampled_from([-129, -128, -1, 0, 1, 2, 5, 127, 128, 255, 256,
-                                                    32767, 32768, 70000]),
-                                   min_size=n, max_size=n, unique=True))
+            if self.chance(40):
+                # dense around zero: almost 0..n-1 (codecs and generators special-case the exact 0..n-1 shape)
+                pool = list(range(-3, n + 2))
+            else:
+                pool = [-129, -128, -1, 0, 1, 2, 5, 127, 128, 255, 256, 32767, 32768, 70000]
+            vals = self.d(st.lists(st.sampled_from(pool), min_size=n, max_size=n, unique=True))
             for nm, v in zip(names, vals):
                 root.append((nm, v, True))
                 used.add(v)
@@ -741,7 +765,67 @@ class _G(object):
             self.avail.append((mod.name, name, asn.base_kind(spec, t, mod.name)))
         if P.defaults and P.refs and P.via_ref_floor and self.chance(P.via_ref_floor_rate):
             self.defaults_via_ref(self.pick(self.modules), set(tnames))
+        if P.components_of_rate and self.chance(P.components_of_rate):
+            self.components_of()
         return Spec(self.modules)
+
+    def components_of(self):
+        """CO ::= SEQUENCE|SET { [co-first T,] COMPONENTS OF X, extra-co BOOLEAN } for a top-level SEQUENCE/SET X, in
+        X's module or (when X's components are self-contained) in another module that imports X.  The AST of CO
+        holds copies of X's root components (the value space and the reference models use those); the text is
+        printed from `raw`.  Only X whose root components carry no hand-written tags are used: X.680 25.7 decides
+        automatic tagging on the list as written, before the expansion, and the library decides after it."""
+        import copy
+        spec = Spec(self.modules)
+        spec.link()
+        cands = []
+        for m in self.modules:
+            for n, t in m.types:
+                if (t.kind in ('SEQUENCE', 'SET') and t.tag is None and t.raw is None and t.root
+                        and not t.root2 and all(x.ty.tag is None for x in t.root)
+                        and 'extra-co' not in [x.name for x in t.root]
+                        and 'co-first' not in [x.name for x in t.root]):
+                    cands.append((m, n, t))
+        allnames = {n for m in self.modules for n, _ in m.types}
+        if not cands or 'CO' in allnames:
+            return
+        m, n, t = self.pick(cands)
+        target = m
+        self_contained = all(x.kind != 'REF' and not (x.rng is not None and (x.rng.lo_txt or x.rng.hi_txt))
+                             and not (x.size is not None and (x.size.lo_txt or x.size.hi_txt))
+                             for mem in t.root for x in mem.ty.walk())
+        others = [o for o in self.modules if o is not m]
+        if others and self_contained and self.chance(60):
+            target = self.pick(others)
+            if n in target.type_map() or any(n in syms for frm, syms in target.imports.items() if frm != m.name):
+                target = m
+        members = [copy.deepcopy(x) for x in t.root]
+        first = self.chance(40)
+        if first:
+            members.insert(0, Member('co-first', Ty(self.pick(['INTEGER', 'BOOLEAN', 'OCTET STRING'])
+                                                    if 'OCTET STRING' in self.p.kinds else 'BOOLEAN')))
+        members.append(Member('extra-co', Ty('BOOLEAN')))
+        ty = Ty(t.kind, root=members)
+        lines = (['  co-first %s,' % asn.print_type(members[0].ty)] if first else []) + \
+            ['  COMPONENTS OF %s,' % n, '  extra-co BOOLEAN']
+        ty.raw = '%s {\n%s\n}' % (t.kind, '\n'.join(lines))
+        ty.raw_refs = [n]
+        target.types.append(('CO', ty))
+        added_import = False
+        if target is not m and n not in target.imports.get(m.name, []):
+            target.imports.setdefault(m.name, []).append(n)
+            added_import = True
+        spec = Spec(self.modules)
+        spec.link()
+        if target.tagdefault != 'AUTOMATIC' and not self.legal(spec, ty, target):
+            # the written list would need tags to be legal: leave it out
+            target.types.pop()
+            if added_import:
+                target.imports[m.name].remove(n)
+                if not target.imports[m.name]:
+                    del target.imports[m.name]
+            return
+        self.avail.append((target.name, 'CO', t.kind))
 
     def defaults_via_ref(self, mod, tnames):
         """Stratification floor: named primitive types and two containers whose members
